@@ -12,6 +12,7 @@ export OMP_NUM_THREADS=1
 RES=""
 for C in $CHECKS; do
   (cd "$V" && PWV_REPO="$D/mut" ./check "$C" --tier quick --no-evidence > "$D/check.out" 2>&1); RC=$?
+  if [ $RC -eq 1 ] && ! grep -q "^VIOLATION property=$C " "$D/check.out"; then RC=9; fi
   RES="$RES $C:exit$RC"
   cp "$D/check.out" "$SRC/check_$C.out"
 done
